@@ -398,6 +398,24 @@ func RunSem(c SemCase) error {
 			}
 		}
 	}
+	// The same value decoded by a user method that hands its bytes to a nested
+	// Unmarshal: the nested error is relative to those bytes and must be
+	// reported at its position in the whole input.
+	{
+		nu := &nestU{typ: typ}
+		var nerr error
+		if p := rt.Guard(func() { nerr = json.Unmarshal(c.Text, nu) }); p != nil {
+			return fmt.Errorf("Unmarshal(%q) through a nested UnmarshalJSON panicked: %v", clip(c.Text), p)
+		}
+		var nse *json.SemanticError
+		if !errors.As(nerr, &nse) {
+			return fmt.Errorf("%s; but through a type whose UnmarshalJSON calls Unmarshal the result is %v", where, nerr)
+		}
+		if string(nse.JSONPointer) != want.ptr || nse.ByteOffset < int64(want.start) || nse.ByteOffset >= int64(want.end) {
+			return fmt.Errorf("Unmarshal(%q) into %v through a type whose UnmarshalJSON calls Unmarshal: SemanticError{ByteOffset:%d, JSONPointer:%q}: the value that cannot be converted (%s) is %q at [%d,%d) of the input (plain Unmarshal reports offset %d)",
+				clip(c.Text), typ, nse.ByteOffset, nse.JSONPointer, want.why, want.ptr, want.start, want.end, se.ByteOffset)
+		}
+	}
 	rec.Class("sem:checked:" + want.why)
 	if se.ByteOffset == int64(want.start) {
 		rec.Class("sem:offset==value-start")
@@ -573,4 +591,11 @@ func RunMSem(c SemCase) error {
 	}
 	rec.Class("msem:checked")
 	return nil
+}
+
+// nestU decodes its bytes with a nested Unmarshal into a value of typ.
+type nestU struct{ typ reflect.Type }
+
+func (n *nestU) UnmarshalJSON(b []byte) error {
+	return json.Unmarshal(b, reflect.New(n.typ).Interface())
 }
